@@ -41,10 +41,15 @@ class MeshHillClimbingSupportFunction:
             connections[j].update((i, k))
             connections[k].update((i, j))
 
-        self.shortcut_connections = np.array([
-            np.argmax(self.vertices[:, 0]), np.argmax(self.vertices[:, 1]),
-            np.argmax(self.vertices[:, 2]), np.argmin(self.vertices[:, 0]),
-            np.argmin(self.vertices[:, 1]), np.argmin(self.vertices[:, 2])])
+        # Only vertices that are part of a triangle have neighbors. A vertex
+        # that is not used by any triangle (e.g., a point on an edge or in
+        # the interior of the convex hull) must not become a shortcut.
+        used = np.unique(triangles).astype(int)
+        used_vertices = self.vertices[used]
+        self.shortcut_connections = used[np.array([
+            np.argmax(used_vertices[:, 0]), np.argmax(used_vertices[:, 1]),
+            np.argmax(used_vertices[:, 2]), np.argmin(used_vertices[:, 0]),
+            np.argmin(used_vertices[:, 1]), np.argmin(used_vertices[:, 2])])]
 
         self.connections = numba.typed.Dict.empty(numba.int64, numba.int64[:])
         for idx, connected_indices in connections.items():
